@@ -128,6 +128,11 @@ def battery(ureg, pint, newunits):
     except Exception as e:  # noqa: BLE001
         out.append("raised:" + type(e).__name__)
     out.append(("depth", len(ureg._active_ctx.contexts)))
+    # registry-wide settings are part of "no residue": every plain attribute of the registry object
+    # (on_redefinition policy, default system name, case sensitivity, auto-conversion flags, ...)
+    out.append(("settings", tuple(sorted((k, repr(v)) for k, v in vars(ureg).items()
+                                         if isinstance(v, (bool, int, str, type(None)))
+                                         and k not in ("_initialized", "_base_units_cache_owner")))))
     return out
 
 
